@@ -449,14 +449,23 @@ Definition meets (d : doc) (c : pclass) (r : res (option (list item))) : bool :=
   | _ => false
   end.
 
+(* a program the property speaks about: no diagnostics, except that `main` may be missing (the
+   property covers the main snippet, which is offered exactly then) *)
+Definition valid_doc (d : doc) : bool :=
+  match doc_errors d with
+  | Done [] => true
+  | Done [(_, _, EBuild MainIsMissing)] => true
+  | _ => false
+  end.
+
 (* 0 = no claim at this position (document with diagnostics, or position in no class),
    1 = the answer is what the property prescribes, 2 = it is not *)
-Definition full_flag (d : doc) (line col : N) : N :=
-  match doc_errors d with
-  | Done [] =>
-      match position_class d (get_insertion_index line col (d_text d)) with
-      | Some c => if meets d c (propose d line col) then 1 else 2
-      | None => 0
-      end
-  | _ => 0
-  end%N.
+Definition full_flag_of (d : doc) (line col : N) (answer : res (option (list item))) : N :=
+  if valid_doc d then
+    match position_class d (get_insertion_index line col (d_text d)) with
+    | Some c => if meets d c answer then 1 else 2
+    | None => 0
+    end%N
+  else 0%N.
+
+Definition full_flag (d : doc) (line col : N) : N := full_flag_of d line col (propose d line col).
